@@ -125,6 +125,32 @@ PROPS = {
         },
         "assumptions": [WALKERS, "base files are valid (C02/C03)"],
     },
+    "C05": {
+        "level": "fault_enumeration",
+        "exhaustive": True,
+        "variants": {
+            "quick": [("rel", {})],
+            "thorough": [("rel", {"timeout": 4 * 3600})],
+        },
+        "floors": ["truncation_points", "read_error_points", "write_error_points"],
+        "rule": "for every reader/writer component (.lzma x4 framings, LZMA2 plain/chunked, XZ x4 option sets, LZIP "
+                "single/multi member, Delta, 8 BCJ filters, BCJ2 with its 4 streams) and fresh small streams per run: EVERY "
+                "truncation point of every framed stream; a persistent source error of kind K at EVERY read-call index "
+                "(or byte position) the reader reaches; 60 short-read/Interrupted source plans; a persistent sink error at "
+                "EVERY write-call index (sampled beyond 4000 calls) plus a flush error; 40 short-write/Interrupted sink "
+                "plans. Oracles: truncated framed stream => Err, never Ok with other bytes, never more than original+4 MiB; "
+                "delivered source/sink error => Err of the same kind; short/interrupted I/O => identical decoded / "
+                "compressed bytes. Unframed filter input is exempt from the truncation clause; faults never delivered are "
+                "counted as not reached. exhaustive=true refers to these per-stream sweeps.",
+        "manifest": {
+            "text": "Fault enumeration: complete truncation-point, read-call-index and write-call-index sweeps over small "
+                    "streams of every component, through fault-injecting Read/Write wrappers driven by the harness's own "
+                    "bounded loops.",
+            "note": "Streams are regenerated per seed; 'endless' is judged against original+4 MiB on uncorrupted streams only.",
+            "technique": "runtime monitoring: exhaustive I/O fault injection per call index + Err-or-exact oracle",
+        },
+        "assumptions": ["streams produced by the crate's own writers are valid (C01-C03)", "the BCJ2 model encoder"],
+    },
     "C08": {
         "level": "exploration",
         "variants": {
